@@ -11,7 +11,7 @@ META = {
     'assumptions': ['"unambiguous Shift-JIS" = characters on which python\'s shift_jis and cp932 codecs agree and round-trip, excluding backslash and tilde'],
     'floors': {'strings_survived': 300, 'rejected_as_expected': 20, 'encodings': 8, 'msg_builtin_games': 6, 'metadata_strings': 40},
 }
-SIZES = {'quick': 1200, 'thorough': 40000}
+SIZES = {'quick': 3600, 'thorough': 40000}
 REP = None
 
 def rep():
